@@ -209,3 +209,155 @@ Section TMstep.
 End TMstep.
 (* C11 statement shape: tm_accepts M w k = Some true  <->  exists i, 1 <= i <= k /\ state (iter tm_step i init) = accept /\ no halting state at 1..i-1 ;
    likewise Some false / reject ; None otherwise ; trace clauses ; monotonicity in k.  (q0 halting: separate lemma, F11.) *)
+
+(* ================================================================== second part: C02, C10, C12, C14, C15, C16/C17, C18, C19 *)
+
+Definition up_to (n : nat) (w : word) : Prop := length w <= n.
+
+Section C02_shapes.
+  (* one statement per kind; `accepts` is the *model* acceptance test, already tied to the spec language by C01/C05/C07/C09/C11 *)
+  Variable dfa_words : dfa nat -> nat -> list word.
+  Variable nfa_words : nfa nat -> nat -> list word.
+  Variable re_words : re -> nat -> list word.
+  Variable cfg_words : cfg -> nat -> list word.
+  Definition C02_dfa_statement : Prop := forall D n w, dfa_wf D -> (In w (dfa_words D n) <-> up_to n w /\ word_over (dSg D) w /\ dfa_lang D w).
+  Definition C02_nfa_statement : Prop := forall N n w, nfa_wf N -> (In w (nfa_words N n) <-> up_to n w /\ word_over (nSg N) w /\ nfa_lang N w).
+  Definition C02_re_statement : Prop := forall r n w, In w (re_words r n) <-> up_to n w /\ re_lang r w.
+  Definition C02_cfg_statement : Prop := forall G n w, cfg_wf G -> (In w (cfg_words G n) <-> up_to n w /\ cfg_lang G w).
+  (* PDA: both routines return (value, truncated) *)
+  Variable pda_words : (list pconf -> option (pconf * list pconf)) -> nat -> pda -> nat -> list word * bool.
+  Definition C02_pda_statement : Prop := forall pick limit P n w, pick_ok pick -> snd (pda_words pick limit P n) = false ->
+      (In w (fst (pda_words pick limit P n)) <-> up_to n w /\ word_over (pSg P) w /\ pda_lang P w).
+  (* TM: same budget k on both sides *)
+  Variable tm_accepts : tm -> word -> nat -> option (option bool).       (* None = the RuntimeError of F11 *)
+  Variable tm_words : tm -> nat -> nat -> list word.
+  Definition C02_tm_statement : Prop := forall M n k w, (In w (tm_words M n k) <-> up_to n w /\ word_over (tSg M) w /\ tm_accepts M w k = Some (Some true)).
+End C02_shapes.
+
+(* ------------------------------------------------------------------ C10 *)
+Definition pda_wf (P : pda) : Prop :=
+  In (pq0 P) (pQ P) /\ incl (pF P) (pQ P) /\ ~ In (peps P) (pSg P) /\ ~ In (peps P) (pGm P) /\
+  forall p a u q v, In ((p, a, u), (q, v)) (pDelta P) ->
+    In p (pQ P) /\ In q (pQ P) /\ (In a (pSg P) \/ a = peps P) /\ (In u (pGm P) \/ u = peps P) /\ (In v (pGm P) \/ v = peps P).
+Definition is_push_pop (P : pda) : Prop := forall p a u q v, In ((p, a, u), (q, v)) (pDelta P) ->
+    (u = peps P /\ v <> peps P) \/ (u <> peps P /\ v = peps P).
+Definition accepts_only_on_empty_stack (P : pda) : Prop := forall w q st, preach P (pq0 P, []) w (q, st) -> In q (pF P) -> st = [].
+Section C10_shapes.
+  Variable one_accept push_pop empty_stack : pda -> option pda.       (* None = marker clash the code asserts / raises on *)
+  Variable pda_to_cfg : pda -> option cfg.
+  Definition conv_statement (f : pda -> option pda) (post : pda -> Prop) : Prop := forall P P', pda_wf P -> f P = Some P' ->
+      pda_wf P' /\ seteq (pSg P') (pSg P) /\ post P' /\ forall w, pda_lang P' w <-> pda_lang P w.
+  Definition C10_one_accept_statement := conv_statement one_accept (fun P' => exists qa, pF P' = [qa]).
+  Definition C10_push_pop_statement := conv_statement push_pop is_push_pop.
+  Definition C10_empty_stack_statement := conv_statement empty_stack accepts_only_on_empty_stack.
+  Definition C10_to_cfg_statement : Prop := forall P G, pda_wf P -> pda_to_cfg P = Some G -> cfg_wf G /\ forall w, cfg_lang G w <-> pda_lang P w.
+End C10_shapes.
+
+(* ------------------------------------------------------------------ C12: the language-comparison feedback *)
+Inductive feedback := FB_ok | FB_extra (w : word) | FB_missing (w : word).
+Section C12_shapes.
+  Variable compare_languages : list word -> list word -> feedback.   (* answer, expected *)
+  Definition C12_compare_statement : Prop := forall A1 A2,
+    match compare_languages A1 A2 with
+    | FB_ok => seteq A1 A2
+    | FB_extra w => In w A1 /\ ~ In w A2 /\ forall v, In v A1 -> ~ In v A2 -> length w <= length v
+    | FB_missing w => incl A1 A2 /\ In w A2 /\ ~ In w A1 /\ forall v, In v A2 -> ~ In v A1 -> length w <= length v
+    end.
+End C12_shapes.
+
+(* ------------------------------------------------------------------ C14 *)
+Section C14_shapes.
+  Variable product : (bool -> bool -> bool) -> dfa nat -> dfa nat -> dfa (nat * nat).
+  Definition C14_product_statement : Prop := forall op D1 D2, dfa_wf D1 -> dfa_wf D2 -> seteq (dSg D1) (dSg D2) ->
+      dfa_wf (product op D1 D2) /\
+      forall w, word_over (dSg D1) w -> forall b1 b2, (b1 = true <-> dfa_lang D1 w) -> (b2 = true <-> dfa_lang D2 w) ->
+        (dfa_lang (product op D1 D2) w <-> op b1 b2 = true).
+  Variable reverse : dfa nat -> option (nfa nat).
+  Definition C14_reverse_statement : Prop := forall D N, dfa_wf D -> reverse D = Some N ->
+      nfa_wf N /\ ~ In (nq0 N) (dQ D) /\ forall w, word_over (dSg D) w -> (nfa_lang N w <-> dfa_lang D (rev w)).
+  Variable no_prefix : dfa nat -> nfa nat.
+  Definition proper_prefix (u w : word) : Prop := exists v, v <> [] /\ w = u ++ v.
+  Definition C14_no_prefix_statement : Prop := forall D w, dfa_wf D -> word_over (dSg D) w ->
+      (nfa_lang (no_prefix D) w <-> dfa_lang D w /\ forall u, proper_prefix u w -> ~ dfa_lang D u).
+  Variable no_extend : dfa nat -> dfa nat.
+  Definition C14_no_extend_statement : Prop := forall D w, dfa_wf D -> word_over (dSg D) w ->
+      (dfa_lang (no_extend D) w <-> dfa_lang D w /\ forall v, word_over (dSg D) v -> proper_prefix w v -> ~ dfa_lang D v).
+  Variable language_no_prefix : list word -> list word.
+  Definition C14_language_no_prefix_statement : Prop := forall L w,
+      In w (language_no_prefix L) <-> In w L /\ forall u, proper_prefix u w -> ~ In u L.
+End C14_shapes.
+
+(* ------------------------------------------------------------------ C15: what a genuine witness is *)
+Definition nfa_run_ok (N : nfa nat) (w : word) (run : list (nat * word)) : Prop :=
+  exists qf, hd_error run = Some (nq0 N, w) /\ last run (0, [0]) = (qf, []) /\ In qf (nF N) /\
+  forall i p u q v, nth_error run i = Some (p, u) -> nth_error run (S i) = Some (q, v) ->
+    (u = v /\ nstep N p (neps N) q) \/ (exists a, u = a :: v /\ a <> neps N /\ nstep N p a q).
+Definition pda_run_ok (P : pda) (w : word) (run : list (nat * word * list sym)) : Prop :=
+  exists qf st, hd_error run = Some (pq0 P, w, []) /\ last run (0, [0], []) = (qf, [], st) /\ In qf (pF P) /\
+  forall i p u s q v t, nth_error run i = Some (p, u, s) -> nth_error run (S i) = Some (q, v, t) ->
+    (u = v /\ pmove P (peps P) (p, s) (q, t)) \/ (exists a, u = a :: v /\ a <> peps P /\ pmove P a (p, s) (q, t)).
+Definition leftmost_step (G : cfg) (x y : list gsym) : Prop :=
+  exists u A rhs v, x = u ++ V A :: v /\ y = u ++ rhs ++ v /\ In (A, rhs) (gR G) /\ Forall (fun s => is_var s = false) u.
+Definition rightmost_step (G : cfg) (x y : list gsym) : Prop :=
+  exists u A rhs v, x = u ++ V A :: v /\ y = u ++ rhs ++ v /\ In (A, rhs) (gR G) /\ Forall (fun s => is_var s = false) v.
+Definition derivation_ok (stepR : list gsym -> list gsym -> Prop) (G : cfg) (w : word) (d : list (list gsym)) : Prop :=
+  hd_error d = Some [V (gS G)] /\ last d [] = map T w /\
+  forall i x y, nth_error d i = Some x -> nth_error d (S i) = Some y -> stepR x y.
+Section C15_shapes.
+  Variable nfa_accepts : nfa nat -> word -> bool.
+  Variable nfa_simulate : (list nat -> option (nat * list nat)) -> nat -> nfa nat -> word -> option (option (list (nat * word))).  (* outer None = out of fuel *)
+  Definition C15_nfa_statement : Prop := forall pick N w, pick_ok pick -> nfa_wf N -> word_over (nSg N) w ->
+      exists fuel r, nfa_simulate pick fuel N w = Some r /\
+        (nfa_accepts N w = true -> exists run, r = Some run /\ nfa_run_ok N w run) /\ (nfa_accepts N w = false -> r = None).
+  Variable cfg_derive : bool (* leftmost? *) -> cfg -> word -> option (list (list gsym)).
+  Definition C15_cfg_statement : Prop := forall G w, cfg_wf G -> is_chomsky G -> w <> [] -> cfg_lang G w ->
+      (exists d, cfg_derive true G w = Some d /\ derivation_ok (leftmost_step G) G w d) /\
+      (exists d, cfg_derive false G w = Some d /\ derivation_ok (rightmost_step G) G w d).
+End C15_shapes.
+
+(* ------------------------------------------------------------------ C16 / C17: token-level text *)
+Definition chr := nat.
+Definition token := list chr.
+Definition line := list token.
+Definition text := list line.
+Inductive perr := E_duplicate_key | E_duplicate_entry | E_empty_states | E_incomplete_transition | E_bad_state_label | E_bad_label
+                | E_undeclared_state | E_undeclared_symbol | E_no_initial | E_multiple_initial | E_not_deterministic | E_not_total
+                | E_no_value | E_multiple_values | E_bad_symbol | E_invariant.
+Section C16_C17_shapes.
+  Variable tok_of_state : nat -> token.            (* harness-side naming, injective, images match \w+ and are not keywords *)
+  Variable tok_of_sym : nat -> token.              (* single \w characters *)
+  Variable print_dfa : dfa nat -> text.
+  Variable parse_dfa : text -> dfa nat + perr.
+  Definition dfa_same (D D' : dfa nat) : Prop :=
+    seteq (dQ D) (dQ D') /\ seteq (dSg D) (dSg D') /\ seteq (dDelta D) (dDelta D') /\ dq0 D = dq0 D' /\ seteq (dF D) (dF D').
+  Definition C16_dfa_statement : Prop := forall D, dfa_wf D -> exists D', parse_dfa (print_dfa D) = inl D' /\ dfa_same D D'.
+  (* a layout of D: any text whose lines are, in any order, the declaration lines (each at most once; `states` and
+     `input_symbols` optional when derivable from the transitions), transition lines covering exactly delta with labels grouped
+     arbitrarily, comment lines and blank lines *)
+  Variable layout_of : dfa nat -> text -> Prop.
+  Definition C17_layout_statement : Prop := forall D t, dfa_wf D -> layout_of D t -> exists D', parse_dfa t = inl D' /\ dfa_same D D'.
+  Definition C17_invariant_statement : Prop := forall t D, parse_dfa t = inl D -> dfa_wf D.
+End C16_C17_shapes.
+
+(* ------------------------------------------------------------------ C18 *)
+Definition lang_union (L1 L2 : word -> Prop) w := L1 w \/ L2 w.
+Definition lang_concat (L1 L2 : word -> Prop) w := exists u v, w = u ++ v /\ L1 u /\ L2 v.
+Inductive lang_star (L : word -> Prop) : word -> Prop :=
+| ls_nil : lang_star L []
+| ls_app u v : L u -> lang_star L v -> lang_star L (u ++ v).
+Definition disjoint {A} (l1 l2 : list A) : Prop := forall x, In x l1 -> In x l2 -> False.
+Section C18_shapes.
+  (* gen = value of the shared IdentifierGenerator counter = the call history; result carries the new counter *)
+  Variable nfa_union : nat -> nfa nat -> nfa nat -> option (nfa nat * nat).
+  Variable nfa_concat : nfa nat -> nfa nat -> option (nfa nat).
+  Variable nfa_star : nat -> nfa nat -> option (nfa nat * nat).
+  Definition C18_union_statement : Prop := forall gen N1 N2, nfa_wf N1 -> nfa_wf N2 -> disjoint (nQ N1) (nQ N2) ->
+      exists N gen', nfa_union gen N1 N2 = Some (N, gen') /\ nfa_wf N /\ ~ In (nq0 N) (nQ N1 ++ nQ N2) /\
+        forall w, word_over (nSg N1 ++ nSg N2) w -> (nfa_lang N w <-> lang_union (nfa_lang N1) (nfa_lang N2) w).
+  Definition C18_concat_statement : Prop := forall N1 N2, nfa_wf N1 -> nfa_wf N2 -> disjoint (nQ N1) (nQ N2) ->
+      exists N, nfa_concat N1 N2 = Some N /\ nfa_wf N /\
+        forall w, word_over (nSg N1 ++ nSg N2) w -> (nfa_lang N w <-> lang_concat (nfa_lang N1) (nfa_lang N2) w).
+  Definition C18_star_statement : Prop := forall gen N1, nfa_wf N1 ->
+      exists N gen', nfa_star gen N1 = Some (N, gen') /\ nfa_wf N /\ ~ In (nq0 N) (nQ N1) /\
+        forall w, word_over (nSg N1) w -> (nfa_lang N w <-> lang_star (nfa_lang N1) w).
+End C18_shapes.
